@@ -377,6 +377,8 @@ pub async fn run(cli: &Cli, report: &mut Report) {
         v.push(Spec { max_packet_length: 1000, expiry: 60, timeout: 0, secret: "operator secret K".into(), from_file: false, layered: 0, only_deadline: true });
         // "never": the largest number there is (connection start + timeout does not fit into an Instant)
         v.push(Spec { max_packet_length: 300, expiry: 60, timeout: u64::MAX, secret: "operator secret L".into(), from_file: false, layered: 0, only_deadline: false });
+        // a mounted secret file usually ends in a line break: it is part of the secret (every byte is)
+        v.push(Spec { max_packet_length: 450, expiry: 60, timeout: 3, secret: "operator secret M\n".into(), from_file: true, layered: 0, only_deadline: false });
         // a secret longer than one HMAC block (HMAC hashes longer keys, it does not cut them)
         v.push(Spec { max_packet_length: 450, expiry: 60, timeout: 3, secret: "0123456789abcdef".repeat(7), from_file: false, layered: 0, only_deadline: false });
         // a secret that a typed configuration layer could take for a number: it is text
